@@ -229,6 +229,10 @@ func init() {
 	reg(zz+"Stdout", func(fr *frame, args []Value) Value {
 		return Str{b: append([]Value(nil), fr.w.out...)}
 	})
+	reg(zz+"BoundedChans", func(fr *frame, args []Value) Value {
+		fr.w.boundedChans = liftBool(args[0]) == trueT
+		return nil
+	})
 	reg(zz+"SplitDiv", func(fr *frame, args []Value) Value {
 		fr.w.splitDiv = liftBool(args[0]) == trueT
 		return nil
